@@ -205,6 +205,22 @@ def max3T (a b c : E) : Tree :=
 def f_lmaxnorm : Family :=
   { name := "lmaxnorm", kind := .poly, treeMode := true, treeWalk := true, keys := [[3]], nOut := fun _ => 1, spec := fun _ _ => zero,
     specT := fun _ _ => absThen (v 0) fun a => absThen (v 1) fun b => absThen (v 2) fun c => max3T a b c }
+/-- two-argument norms act on the difference `b − a` -/
+def dv (i : Nat) : E := .sub (v (3 + i)) (v i)
+def f_l2norm2 : Family :=
+  { name := "l2norm2", kind := .poly, guard := true, keys := [[3]], nOut := fun _ => 1, spec := fun _ _ => sqrtE (dotE 3 dv dv) }
+def f_lmaxnorm2 : Family :=
+  { name := "lmaxnorm2", kind := .poly, treeMode := true, treeWalk := true, keys := [[3]], nOut := fun _ => 1, spec := fun _ _ => zero,
+    specT := fun _ _ => absThen (dv 0) fun a => absThen (dv 1) fun b => absThen (dv 2) fun c => max3T a b c }
+/-- `lxNorm(v, n) = (|x|ⁿ + |y|ⁿ + |z|ⁿ)^(1/n)` (traced at `n = 3`; `pow` is the library call) -/
+def lxLeaf (a b c : E) : E :=
+  .call2 .pow (.add (.add (.call2 .pow a (.lit 3 1)) (.call2 .pow b (.lit 3 1))) (.call2 .pow c (.lit 3 1))) (.div one (.lit 3 1))
+def f_lxnorm : Family :=
+  { name := "lxnorm", kind := .poly, treeMode := true, treeWalk := true, keys := [[3]], nOut := fun _ => 1, spec := fun _ _ => zero,
+    specT := fun _ _ => absThen (v 0) fun a => absThen (v 1) fun b => absThen (v 2) fun c => .leaf (lxLeaf a b c) }
+def f_lxnorm2 : Family :=
+  { name := "lxnorm2", kind := .poly, treeMode := true, treeWalk := true, keys := [[3]], nOut := fun _ => 1, spec := fun _ _ => zero,
+    specT := fun _ _ => absThen (dv 0) fun a => absThen (dv 1) fun b => absThen (dv 2) fun c => .leaf (lxLeaf a b c) }
 /-- `orthonormalize(x, y) = normalize(x − y (y·x))`; the only divisor is the length of that difference -/
 def onD (i : Nat) : E := .sub (vv 0 i) (.mul (vv 3 i) (dotE 3 (vv 3) (vv 0)))
 def onLen : E := sqrtE (dotE 3 onD onD)
@@ -216,6 +232,6 @@ def families : List Family :=
   [f_dot, f_length, f_distance, f_length2, f_distance2, f_normalize, f_normalize_unit, f_faceforward,
    f_reflect, f_reflect_len, f_reflect_inv, f_refract, f_sdot, f_slength, f_sdistance, f_sfaceforward,
    f_sreflect, f_srefract, f_cross, f_cross_orth, f_cross2, f_mixed, f_proj, f_perp, f_perp_orth, f_angle,
-   f_trinormal, f_closest, f_sangle, f_orientedangle2, f_orientedangle3, f_l1norm, f_l1norm2, f_l2norm, f_lmaxnorm, f_orthonormalize]
+   f_trinormal, f_closest, f_sangle, f_orientedangle2, f_orientedangle3, f_l1norm, f_l1norm2, f_l2norm, f_lmaxnorm, f_orthonormalize, f_l2norm2, f_lmaxnorm2, f_lxnorm, f_lxnorm2]
 
 end Glm.Spec.C12
